@@ -22,6 +22,7 @@ CONSTANTS Cfg,         \* configuration record of the transaction (see MC module
           MaxFaults,   \* link fault budget (drop, duplicate, reorder, hold)
           Cmds,        \* user commands that may be issued, each at most once: <<entity, command>>
           KnownSigs,   \* signatures of recorded findings tolerated by the as-is invariants
+          FaultKinds,  \* which link faults are explored: subset of {"drop", "dup", "reorder", "hold"}
           Blackouts,   \* directions of the link that may go dark for good: subset of {"c2r", "c2s"}
           Injects      \* PDUs an adversarial peer may put on the link, each once: sequence of [ch, pdu]
 
@@ -122,7 +123,7 @@ Without(q, i) == SubSeq(q, 1, i - 1) \o SubSeq(q, i + 1, Len(q))
 DeliverR(i) ==
   /\ "c2r" \notin black
   /\ i \in 1 .. Len(c2r)
-  /\ i > 1 => nf < MaxFaults
+  /\ i > 1 => (nf < MaxFaults /\ "reorder" \in FaultKinds)
   /\ LET p == c2r[i]
          spawn == ~r.alive
          r0 == IF spawn THEN RInit(C) ELSE r
@@ -142,7 +143,7 @@ DeliverR(i) ==
 DeliverS(i) ==
   /\ "c2s" \notin black
   /\ i \in 1 .. Len(c2s)
-  /\ i > 1 => nf < MaxFaults
+  /\ i > 1 => (nf < MaxFaults /\ "reorder" \in FaultKinds)
   /\ LET p == c2s[i]
          x == IF s.alive THEN SPdu(s, C, p) ELSE [s |-> s, out |-> <<>>, ind |-> <<>>, res |-> "no_sender"]
      IN /\ s' = x.s
@@ -154,7 +155,7 @@ DeliverS(i) ==
 
 \* on a dark direction every PDU is lost (only the head is dropped: the order is immaterial)
 Drop(ch, i) ==
-  /\ IF ch \in black THEN i = 1 ELSE nf < MaxFaults
+  /\ IF ch \in black THEN i = 1 ELSE (nf < MaxFaults /\ "drop" \in FaultKinds)
   /\ i \in 1 .. Len(IF ch = "c2r" THEN c2r ELSE c2s)
   /\ c2r' = IF ch = "c2r" THEN Without(c2r, i) ELSE c2r
   /\ c2s' = IF ch = "c2s" THEN Without(c2s, i) ELSE c2s
@@ -165,7 +166,7 @@ Drop(ch, i) ==
 
 Ins(q, i) == SubSeq(q, 1, i) \o <<q[i]>> \o SubSeq(q, i + 1, Len(q))
 Dup(ch, i) ==
-  /\ nf < MaxFaults /\ ch \notin black
+  /\ nf < MaxFaults /\ ch \notin black /\ "dup" \in FaultKinds
   /\ i \in 1 .. Len(IF ch = "c2r" THEN c2r ELSE c2s)
   /\ c2r' = IF ch = "c2r" THEN Ins(c2r, i) ELSE c2r
   /\ c2s' = IF ch = "c2s" THEN Ins(c2s, i) ELSE c2s
@@ -199,7 +200,7 @@ BudgetLeft == nf < MaxFaults \/ used # Cmds \/ black # Blackouts \/ inj # 1 .. L
 
 Tick(d) ==
   /\ Quiet
-  /\ (c2r = <<>> /\ c2s = <<>>) \/ nf < MaxFaults        \* a PDU still in flight is being delayed
+  /\ (c2r = <<>> /\ c2s = <<>>) \/ (nf < MaxFaults /\ "hold" \in FaultKinds)   \* a PDU still in flight is being delayed
   /\ ("c2r" \in black => c2r = <<>>) /\ ("c2s" \in black => c2s = <<>>)
   /\ s.alive \/ r.alive
   /\ IF NextDeadline = Never
